@@ -20,10 +20,12 @@ META = {
     "level_text": ("Proved for every directory tree, versioned set, ignore oracle and option combination: only selected "
                    "unversioned top-level items are handed to unlink/rmtree, versioned paths and their ancestors keep "
                    "their kind, every deleted path is a real entry reached without traversing a symlink, dry run / "
-                   "declined prompt / no category are no-ops, a directory with a control directory at its top is kept, "
-                   "git trees keep everything below a directory holding a .git entry, nothing whose basename is a control "
-                   "filename (.bzr/.git) is ever deletable (b06b6de). Machine-checked refutations: nested branch at "
-                   "depth >= 2 (bzr), nested .bzr in a git tree. Model tied to the code by running clean_tree on real trees (file system before/after)."),
+                   "declined prompt / no category are no-ops, the control directory of every branch (own, nested at any "
+                   "depth, any registered format, bzr and git trees) survives with all it holds, an unversioned item "
+                   "holding a branch anywhere below it is kept entirely, git trees keep everything below a directory "
+                   "holding a .git entry, nothing with a control filename among its path components is deletable "
+                   "(repairs 07ac4fc, edd5827, b06b6de). Machine-checked refutation of the residue: working files of a "
+                   "bzr branch nested in a git tree / of a git repository rooted in a versioned directory are deleted. Model tied to the code by running clean_tree on real trees (file system before/after)."),
     "level_note": ("Trusted: Coq kernel, vm_compute, correspondence of the hand model (sampled layouts), the ignore "
                    "oracle is an input (real is_ignored answers are fed in), permission errors not modelled."),
     "design_ref": "DESIGN.md §5 C46",
@@ -87,11 +89,16 @@ HAND = [
 
 def corpus():
     out = []
-    # finding witnesses
+    # witnesses of the three repaired findings (07ac4fc, b06b6de, edd5827): regression inputs
     out.append(_inp("bzr", [("u", "d"), ("u/n", "d")] + _bzrctl("u/n") + [("u/n/work", "f")], [], [], (1, 0, 0)))
     # witness of C46-foreign-control-dir (fixed by b06b6de): must pass the oracle now
     out.append(_inp("bzr", [(".git", "d"), (".git/HEAD", "f"), ("f", "f")], ["f"], [], (1, 0, 0)))
+    out.append(_inp("git", [("n", "d")] + _bzrctl("n"), [], [], (1, 0, 0)))
+    out.append(_inp("bzr", [("ig", "d"), ("ig/a", "d"), ("ig/a/g", "d")] + _gitctl("ig/a/g") + [("ig/x", "f")],
+                    [], ["ig"], (0, 1, 0)))
+    # witnesses of the residue C46-nested-branch-working-files
     out.append(_inp("git", [("n", "d")] + _bzrctl("n") + [("n/work", "f")], [], [], (1, 0, 0)))
+    out.append(_inp("bzr", [("v", "d")] + _gitctl("v") + [("v/k", "f")], ["v"], [], (1, 0, 0)))
     # the control-filename skip: .git in a versioned subdirectory / all flags; plain entries named .bzr in a git tree
     out.append(_inp("bzr", [("v", "d"), ("v/.git", "d"), ("v/.git/HEAD", "f"), ("v/k", "f")], ["v"], [], (1, 1, 1)))
     out.append(_inp("git", [("u", "d"), ("u/.bzr", "f"), ("u/k", "f"), ("w", "d"), ("w/.bzr", "lx")], [], [], (1, 1, 1)))
@@ -308,6 +315,14 @@ def oracle(inp, obs):
             c = "/".join(segs[:k + 1])
             if segs[k] in (".bzr", ".git") and D.is_ctl_dir(before, c) and p not in after:
                 return f"nested branch: control directory entry {p!r} deleted (control dir {c!r})"
+    # ... and so must the working files of a nested branch (everything below its root)
+    for c in sorted(before):
+        segs = c.split("/")
+        if len(segs) >= 2 and segs[-1] in (".bzr", ".git") and D.is_ctl_dir(before, c):
+            root = "/".join(segs[:-1])
+            gone = [p for p in removed if p.startswith(root + "/")]
+            if gone:
+                return f"nested branch working files: {gone[:3]!r} below the branch root {root!r} deleted"
     from breezy.clean_tree import is_detritus
     for p in removed:
         tops = [a for a in _anc(p) if a in removed]
@@ -334,20 +349,16 @@ def _ctl_roots(inp):
 
 
 def finding_matches(fid, inp, obs, why):
-    if not (why or "").startswith("nested branch"):
+    # C46-deep-nested-branch (07ac4fc), C46-foreign-control-dir (b06b6de) and C46-git-tree-nested-bzr
+    # (edd5827) are fixed: no predicate excuses them any more.
+    if fid != "C46-nested-branch-working-files" or not (why or "").startswith("nested branch working files"):
         return False
     vs = set(inp["versioned"])
     roots = _ctl_roots(inp)
-    if fid == "C46-deep-nested-branch":
-        # bzr tree: a branch root with an unversioned PROPER ancestor directory
-        return inp["fmt"] == "bzr" and any(r and any(a not in vs for a in _anc(r)) for r, _c in roots)
-    if fid == "C46-foreign-control-dir":
-        # bzr tree: a .git directly inside a versioned directory (or the tree root)
-        return inp["fmt"] == "bzr" and any(c == ".git" and (r == "" or r in vs) for r, c in roots)
-    if fid == "C46-git-tree-nested-bzr":
-        # git tree: any nested .bzr control directory that is not shielded by a .git next to or above it
-        return inp["fmt"] == "git" and any(c == ".bzr" for _r, c in roots)
-    return False
+    if inp["fmt"] == "git":      # a bzr branch nested in a git tree: its unknown files belong to the outer tree
+        return any(c == ".bzr" and r != "" for r, c in roots)
+    # bzr tree: a VERSIONED directory that is the root of a git repository
+    return any(c == ".git" and r != "" and r in vs for r, c in roots)
 
 
 def nontrivial(inp, obs):
